@@ -167,9 +167,12 @@ class SimTransport(Transport):
         meta = None
         if isinstance(message, dict) and message.get('type') == 'append_entries' and message.get('serialized'):
             meta = self.cluster._chunk_meta(self.me, node, message['serialized'])
-        if self.net.pair(self.me, peer) in self.net.alive:
+        back = self.net.chan.get((peer, self.me))
+        rebinding = bool(back) and back[0].data == HELLO
+        if self.net.pair(self.me, peer) in self.net.alive and not rebinding:
             self.net.chan[(self.me, peer)].append(Msg(data, meta))
-        # else: written into a dead connection that this side has not noticed yet
+        # else: written into a dead connection that this side has not noticed yet - also when the peer has dialled again
+        # meanwhile and its hello has not been processed here: this side's registration is still the OLD connection
         return True
 
     def _watch_pieces(self, node, message):
